@@ -195,6 +195,9 @@ type tgenOpts struct {
 	MaxDepth     int
 	BigIDs       bool // allow ids up to 32767
 	ManyFields   bool // occasionally a very wide struct
+	// NumberedFields > 0: the root struct gets that many extra scalar fields named item_1..item_N (names that no single
+	// character position tells apart: the descriptor's name index is a hash map then, not a trie)
+	NumberedFields int
 	KeyKinds     []byte
 	Aliases      bool
 	Defaults     bool
@@ -507,6 +510,19 @@ func genSchema(t *simrt.Tape, o tgenOpts) *TSchema {
 	g := &tgen{t: t, o: o, sch: &TSchema{}}
 	root := g.newStruct(o.MaxDepth)
 	g.sch.Root = &TType{Kind: tSTRUCT, St: root}
+	if o.NumberedFields > 0 {
+		maxID := 0
+		for _, f := range root.Fields {
+			if f.ID > maxID {
+				maxID = f.ID
+			}
+		}
+		for i := 1; i <= o.NumberedFields && maxID < 32767; i++ {
+			maxID++
+			k := []byte{tI32, tSTRING, tBOOL}[g.t.Intn(3, "numbered.kind")]
+			root.Fields = append(root.Fields, &TField{ID: maxID, Name: fmt.Sprintf("item_%d", i), T: &TType{Kind: k}})
+		}
+	}
 	if o.ForceSelf {
 		has, maxID := false, 0
 		for _, f := range root.Fields {
